@@ -40,6 +40,7 @@ fn do_call(u: &Unimock, m: u32, a: u8) -> String {
         5 => u.m5(a).take(),
         6 => <Unimock as G<u8>>::g(u, a).take(),
         7 => <Unimock as G<u16>>::g(u, a).take(),
+        9 => take_triple(u.mt(a)),
         _ => panic!("harness: no such method {m}"),
     }
 }
